@@ -6,3 +6,4 @@ import VibeProof.Props.C32
 #print axioms VibeProof.C32.C32_lookup_case_insensitive
 #print axioms VibeProof.C32.C32_pushdown_through_projection
 #print axioms VibeProof.C32.C32_filter_compose
+#print axioms VibeProof.C32.C32_star_view_is_table
